@@ -137,11 +137,13 @@ pub struct Peer {
     pub fired: Cell<bool>,
     /// index (in `calls`) of the call that carried the alpha value, if seen
     pub alpha_call: Cell<Option<usize>>,
+    /// what the format answers to `is_human_readable` (true for every judged conversation)
+    pub human_readable: Cell<bool>,
 }
 
 impl Peer {
     pub fn new(fail_at: Option<usize>) -> Self {
-        Peer { calls: Cell::new(0), fail_at: Cell::new(fail_at), fired: Cell::new(false), alpha_call: Cell::new(None) }
+        Peer { calls: Cell::new(0), fail_at: Cell::new(fail_at), fired: Cell::new(false), alpha_call: Cell::new(None), human_readable: Cell::new(true) }
     }
     /// Count one data-model call; `Err` if this is the planned failing one.
     pub fn call(&self) -> Result<(), SimError> {
@@ -277,7 +279,7 @@ impl<'p> Serializer for Rec<'p> {
         Err(SimError("SimFormat: struct variants are not part of any color".into()))
     }
     fn is_human_readable(&self) -> bool {
-        true
+        self.peer.human_readable.get()
     }
 }
 
@@ -721,7 +723,7 @@ impl<'de, 'p> Deserializer<'de> for Replay<'de, 'p> {
         visitor.visit_unit()
     }
     fn is_human_readable(&self) -> bool {
-        true
+        self.peer.human_readable.get()
     }
 }
 
